@@ -104,7 +104,7 @@ c.ens("returned-path-did-not-exist-when-checked", lambda result, trace: And(
 
 
 @exhaustive("image-writers-open-only-the-unique-path", props=["C15", "C18"],
-            note="AST: in every ImageWriter._save_* method each open(...) gets the variable bound by  name, path = self._create_unique_image_name(...)  and mode 'wb'")
+            note="AST: in every ImageWriter._save_* method each open(...) gets the variable bound by  name, path = self._create_unique_image_name(...)  and mode 'wb'; neither variable is bound a second time")
 def _():
     from pyvc.extract import module_ast
     tree, _src = module_ast("pdfminer.image")
@@ -122,6 +122,16 @@ def _():
                     arg = n.args[0]
                     if not (isinstance(arg, ast.Name) and arg.id in bound and len(n.args) > 1 and ast.unparse(n.args[1]) in ("'wb'", '"wb"')):
                         fails.append(dict(function=fn.name, call=ast.unparse(n)))
+            # ... and that variable (like the name returned with it) is bound nowhere else in the method: a path or name re-derived after the existence check
+            # has not been checked
+            for n in ast.walk(fn):
+                if isinstance(n, ast.Assign) and isinstance(n.value, ast.Call) and "_create_unique_image_name" in ast.unparse(n.value.func) and isinstance(n.targets[0], ast.Tuple):
+                    for el in n.targets[0].elts:
+                        cases += 1
+                        stores = [m for m in ast.walk(fn) if isinstance(m, ast.Name) and m.id == el.id and isinstance(m.ctx, (ast.Store, ast.Del))]
+                        if len(stores) != 1:
+                            fails.append(dict(function=fn.name, variable=el.id, bound_at_lines=[m.lineno for m in stores],
+                                              problem="re-bound after _create_unique_image_name checked it"))
     return dict(cases=cases, failures=fails)
 
 
